@@ -13,7 +13,7 @@ table the set of processed tags is weakened to "all tags of the tables so far".
 -/
 set_option linter.unusedSectionVars false
 
-namespace Ptn.Ham
+namespace Ptn.Ham.Gauge
 open Ptn.Og Finset
 
 variable {α : Type} [CommRing α] [HasConj α] [DecidableEq α]
@@ -296,4 +296,4 @@ theorem gaugeSide_good (hc : ConjLaws α) (u : Mat α)
   simp only [List.foldlM_nil, pure, Except.pure, (isUnitary_iff g10.1).2 g10.2.2, if_true]
 
 end
-end Ptn.Ham
+end Ptn.Ham.Gauge
